@@ -63,4 +63,22 @@ def run(ctx):
                     full = set(F.enums.get(si["enum"], {}).values())
                     ctx.ob(f"commit|{si['enum'].split('::')[-1]}|exhaustive", ow is None or not (full - set(ed)), f"arms {sorted(ed)} otherwise={ow}", b.loc(bb))
     ctx.ob("commit|anchor", len(cm) >= 1, f"overlay commit impl(s): {len(cm)}")
+    ctx.rule("T4 on the staged Delta map: when a later commit is merged into an overlay partition that is in Delta mode, entries are only added or "
+             "overwritten — the staged `substate_updates` map is never shrunk (remove / retain / clear): an incoming Delete must stay recorded as "
+             "a tombstone, because the staged Set it meets may be shadowing a value of the root (only a Reset partition's "
+             "`new_substate_values` may lose entries: the reset already hides the root)")
+    mg = [x for x in F.fns if x.endswith("substate_database_overlay::merge_database_updates")]
+    ctx.ob("merge|anchor", len(mg) == 1, f"merge_database_updates: {len(mg)}")
+    for x in mg[:1]:
+        shrink, grows = [], 0
+        for b in ctx.bodies_of(x):
+            for bb, t in b.calls(r"::(remove|remove_entry|swap_remove|shift_remove|retain|clear|pop_first|pop_last|split_off|drain)$"):
+                if any("@Delta" in a.proj and ".substate_updates" in a.proj for a in b.origins(t["args"][0])):
+                    shrink.append((t["f"].rsplit("::", 1)[1], b.loc(bb)))
+            for bb, t in b.calls(r"::(extend|insert)$"):
+                if any("@Delta" in a.proj and ".substate_updates" in a.proj for a in b.origins(t["args"][0])):
+                    grows += 1
+        ctx.ob("merge|delta-map-never-shrinks", not shrink and grows >= 1,
+               f"the staged Delta map is only extended/overwritten ({grows} site(s))" if not shrink else
+               f"the staged Delta map loses entries ({[s_[0] for s_ in shrink]}): a Delete that cancels a staged Set lets the root's old value show through", shrink[0][1] if shrink else "")
     ctx.assume("equality of reads/listings with 'base + commits applied' (merge order inside OverlayingIterator, cursor handling) is value-level and NOT decided")
